@@ -123,6 +123,7 @@ def jn (n : Nat) : Json := .num ⟨n, 0⟩
 
 def rvJson : RV → Json
   | .none_ => .null
+  | .val (.str _) => .str "<expr>"   -- canonical form of any string (the harness maps strings likewise)
   | .val v => jsonOfVal v
   | .expr _ => .str "<expr>"
 
